@@ -406,7 +406,7 @@ def check_c20(prop, tier, seed):
             st += s
             if '"ACCEPTED"' in out and rc == 0:
                 break
-            m = re.search(r'<<"REJECTED", (\d+), "([a-z]+)">>', out)
+            m = re.search(r'<<"REJECTED", (\d+), "([a-z_]+)">>', out)
             if not m:
                 raise vlib.ToolError("TLC failed on replay events:\n" + out[-2000:])
             ln = int(m.group(1)) - 2
@@ -454,6 +454,7 @@ GEN_THEMES = {
                ({"tf": 3, "hf": 0, "plus": 0}, "free", "custom", 1), ({"tf": 2, "hf": 0, "plus": 0}, "free", "movable", 1),
                ({"tf": 2, "hf": 0, "plus": 0}, "free", "zeroslot", 1)],
     "Rows": [({"tf": 1, "hf": 0, "plus": 0}, "free", "simple", 1), ({"tf": 1, "hf": 1, "plus": 0}, "free", "movable", 1)],
+    "Cursor": [({"tf": 2, "hf": 0, "plus": 0}, "free", "simple", 1)],
     "Offline": [({"tf": 3, "hf": 0, "plus": 0}, "free", "simple", 1), ({"tf": 2, "hf": 1, "plus": 0}, "free", "zeroed", 1),
                 ({"tf": 2, "hf": 0, "plus": 0}, "alloc", "simple", 1)],
 }
@@ -484,7 +485,8 @@ def script_jobs(tier, seed, themes=None):
     jobs, nseq, states = [], 0, 0
     os.makedirs(vlib.WORK, exist_ok=True)
     for theme in (themes or GEN_THEMES):
-        seqs, st = gen_sequences(theme, depth)
+        # the Cursor theme has 6 letters and needs 5 steps (reserve, move the cursor, refill, allocate)
+        seqs, st = gen_sequences(theme, depth + 2 if theme == "Cursor" else depth)
         states += st[1]
         nseq += len(seqs)
         cfgs = GEN_THEMES[theme]
